@@ -43,15 +43,28 @@ def quantifier(F, g, pol, argname="q", tracer=None):
     if a is None or atom_fn(a) not in ("std::iter::Iterator::any", "std::iter::Iterator::all"):
         return None
     args = atom_args(a)
-    if len(args) != 2 or not (isinstance(args[0], tuple) and args[0] and args[0][0] == "iterdesc"):
+    if len(args) != 2 or not (isinstance(args[0], tuple) and args[0]):
         return None
+    if args[0][0] == "struct" and args[0][1] in ("Range", "RangeInclusive"):
+        f = dict(args[0][2])
+        src = ("iterdesc", ("range", f.get("start"), f.get("end"), args[0][1] == "RangeInclusive"))
+    elif args[0][0] == "iterdesc":
+        src = args[0]
+    else:
+        return None
+    args = (src, args[1])
     clo = args[1]
     node = F.closures.get(clo[1]) if isinstance(clo, tuple) and clo and clo[0] == "closure" and isinstance(clo[1], str) else None
     if node is None:
         return None
     try:
         cenv = dict(getattr(tracer, "closure_envs", {}).get(clo[1], {})) if tracer is not None else {}
-        pv = SymEval(F, mode="int").apply(("closure", node, cenv), [var(argname)])
+        sub = Tracer(F, "NONE", mode="int")
+        pv = sub.apply(("closure", node, cenv), [var(argname)])
+        if tracer is not None and hasattr(sub, "closure_envs"):
+            if not hasattr(tracer, "closure_envs"):
+                tracer.closure_envs = {}
+            tracer.closure_envs.update(sub.closure_envs)
     except Unsupported:
         return None
     is_any = atom_fn(a).endswith("any")
@@ -118,7 +131,7 @@ class Tracer(SymEval):
                 return ("enumerate", self.iter_desc(it["recv"], env))
             if m == "rev":
                 return ("rev", self.iter_desc(it["recv"], env))
-            if m in ("map", "filter", "filter_map", "zip", "skip", "step_by", "take"):
+            if m in ("map", "filter", "filter_map", "zip", "skip", "step_by", "take", "flat_map"):
                 inner = self.iter_desc(it["recv"], env)
                 extra = [self.eval(a, env) if a.get("k") != "closure" else ("closure", a, dict(env)) for a in it["args"]]
                 return (m, inner) + tuple(extra)
@@ -150,6 +163,26 @@ class Tracer(SymEval):
     # -- control flow --------------------------------------------------------
     def e_for(self, n, env):
         desc = self.iter_desc(n["iter"], env)
+        # for x in outer.flat_map(|o| inner(o)) is the loop nest `for o in outer { for x in inner(o) }`
+        extra = 0
+        while desc[0] == "flat_map" and len(desc) == 3:
+            oh = "fm%d" % len(self.loops)
+            try:
+                inner = self.apply(desc[2], [self.elem_value(desc[1], oh)])
+            except Unsupported:
+                break
+            if not (isinstance(inner, tuple) and inner and inner[0] == "iterdesc"):
+                break
+            self.loops.append(("iter", oh, desc[1]))
+            extra += 1
+            desc = inner[1]
+        try:
+            return self._e_for(n, env, desc)
+        finally:
+            for _ in range(extra):
+                self.loops.pop()
+
+    def _e_for(self, n, env, desc):
         names = [x["name"].split("#")[0] for x in walk(n["pat"]) if x.get("k") == "bind"]
         hint = names[0] if names else "it"
         e2 = dict(env)
@@ -395,7 +428,7 @@ class Tracer(SymEval):
         return app("matches", v, repr(pat_key(n["pat"])))
 
     ITER_METHODS = ("iter", "iter_mut", "into_iter", "map", "filter", "filter_map", "enumerate", "rev", "zip",
-                    "skip", "step_by", "take")
+                    "skip", "step_by", "take", "flat_map")
 
     def e_mcall(self, n, env):
         if n["m"] == "next" and not n["args"] and (n.get("def") or "").endswith("Iterator::next"):
